@@ -68,7 +68,6 @@ func (tr *Tr) safety(fr *frame, kind string, cond string, pos token.Pos, desc st
 		return
 	}
 	tr.oblige(fr, kind, "", "", fr.curReach, cond, pos, desc)
-	tr.assume(fr.curReach, cond)
 }
 
 func (tr *Tr) nonNil(fr *frame, ref string, pos token.Pos, what string) {
@@ -104,7 +103,7 @@ func (tr *Tr) instr(fr *frame, ins ssa.Instruction) {
 		if pl.kind == plObj || pl.kind == plArr {
 			fr.vals[x] = Val{T: pl.ref, Ty: x.Type()}
 		} else {
-			fr.vals[x] = Val{T: app(C.addrFn(structKey(pt, st), fieldName(st, x.Field)), base.T), Ty: x.Type()}
+			fr.vals[x] = Val{T: tr.addr(structKey(pt, st), fieldName(st, x.Field), base.T), Ty: x.Type()}
 		}
 	case *ssa.Field:
 		base := tr.val(fr, x.X)
@@ -1072,7 +1071,7 @@ func (tr *Tr) guardedAccess(fr *frame, addr ssa.Value, pos token.Pos) {
 			vfail("guarded_by: no mutex field %s in %s", g.Mutex, g.Struct)
 		}
 		mst := pt.Underlying().(*types.Struct)
-		maddr := app(tr.C.addrFn(structKey(pt, mst), fieldName(mst, path[0])), base.T)
+		maddr := tr.addr(structKey(pt, mst), fieldName(mst, path[0]), base.T)
 		prop := ""
 		if len(g.Props) > 0 {
 			prop = g.Props[0]
